@@ -4,5 +4,6 @@ INVARIANT Inv
 CHECK_DEADLOCK FALSE
 CONSTANTS
   MaxLen = 3
-  FullLen = 2
+  FullLen = 1
+  MidLen = 2
   MaxLists = 3
